@@ -417,6 +417,19 @@ def plan(ctx):
     for delim in ("\n", "ab"):
         jobs.append((("text", delim, ("x" + delim + "y" + delim + "z" + delim,), False, "", False, 2, 2, "future"), 1))
         jobs.append((("text", delim, ("x" + delim + "y" + delim, "z" + delim), False, "", False, 2, 1, "future"), 1))
+    # delimiters that overlap themselves ('aa', a blank line): every string over {x, delimiter character} up to length 5
+    # that contains the delimiter, cut everywhere (runs of delimiter characters longer than the delimiter, read boundaries
+    # inside and right after such runs)
+    for delim in ("aa", "\n\n"):
+        c = delim[0]
+        for n in range(2, 6 if T else 5):
+            for letters in itertools.product("x" + c, repeat=n):
+                txt = "".join(letters)
+                if delim not in txt:
+                    continue
+                for chunks in compositions(txt):
+                    if 2 <= len(chunks) <= 3:
+                        jobs.append((("text", delim, chunks, False, "", False, min(len(chunks), 2)), 0))
     # a directory path instead of a pattern; a pattern spanning two directories (same file name in both);
     # stop() / start() between polls (what has been emitted stays emitted)
     for create in itertools.permutations(names[:2]):
